@@ -70,25 +70,38 @@ def fmt(c):
     return (s[2:] if s.startswith("+ ") else s) + " >= 0"
 
 
+def _norm_rows(rows):
+    """integer rows {var: coef}, const  ->  deduplicated: coefficients divided by their gcd (constant floored: sound for
+    integers and tighter), and for each coefficient vector only the tightest constant kept"""
+    from math import gcd
+    best = {}
+    for co, c in rows:
+        co = {k: v for k, v in co.items() if v != 0}
+        if not co:
+            if c < 0:
+                return None
+            continue
+        g = 0
+        for v in co.values():
+            g = gcd(g, abs(v))
+        if g > 1:
+            co = {k: v // g for k, v in co.items()}
+            c = c // g          # floor: sum(co*x) >= -c/g  with integer lhs  =>  sum >= ceil(-c/g) = -floor(c/g)
+        key = tuple(sorted(co.items()))
+        if key not in best or c < best[key]:
+            best[key] = c
+    return [(dict(k), c) for k, c in best.items()]
+
+
 def infeasible(cons):
-    """True iff the conjunction of `cons` (each L >= 0) has no rational solution."""
-    rows = []
-    for coeffs, const in cons:
-        rows.append(({k: Fraction(v) for k, v in coeffs}, Fraction(const)))
+    """True iff the conjunction of `cons` (each L >= 0, integer coefficients) has no integer solution that the
+    Fourier-Motzkin relaxation can exclude (rational elimination with integer tightening of each derived row)."""
+    rows = _norm_rows([(dict(coeffs), const) for coeffs, const in cons])
+    if rows is None:
+        return True
     while True:
-        # constant rows
-        nxt = []
-        for co, c in rows:
-            co = {k: v for k, v in co.items() if v != 0}
-            if not co:
-                if c < 0:
-                    return True
-                continue
-            nxt.append((co, c))
-        rows = nxt
         if not rows:
             return False
-        # pick the variable with the fewest pos*neg combinations
         count = {}
         for co, c in rows:
             for k, v in co.items():
@@ -98,10 +111,12 @@ def infeasible(cons):
         pos = [(co, c) for co, c in rows if co.get(var, 0) > 0]
         neg = [(co, c) for co, c in rows if co.get(var, 0) < 0]
         rest = [(co, c) for co, c in rows if co.get(var, 0) == 0]
+        if len(pos) * len(neg) + len(rest) > MAX_CONSTRAINTS:
+            return False     # give up: not proved
         new = []
         for pco, pc in pos:
+            a = pco[var]
             for nco, nc in neg:
-                a = pco[var]
                 b = -nco[var]
                 co = {}
                 for k, v in pco.items():
@@ -111,7 +126,9 @@ def infeasible(cons):
                     if k != var:
                         co[k] = co.get(k, 0) + v * a
                 new.append((co, pc * b + nc * a))
-        rows = rest + new
+        rows = _norm_rows(rest + new)
+        if rows is None:
+            return True
         if len(rows) > MAX_CONSTRAINTS:
             return False     # give up: not proved
 
